@@ -96,13 +96,7 @@ func c05CopyModel(x *c04World) [c04Pods]c04PodModel {
 
 func c05Run(c *vt.Ctx, s c05Scenario) {
 	cloud := cloudsim.New()
-	for _, n := range s.Cfg.PreENIs {
-		n6 := 0
-		if s.Cfg.V6 {
-			n6 = n
-		}
-		cloud.AddENI("secondary", n, n6)
-	}
+	vsAddPreENIs(cloud, s.Cfg)
 	k := vsNewK8s()
 	dir := vsScratchDir()
 	w, err := vsStart(s.Cfg, cloud, k, dir, dir+"/pod.db")
